@@ -409,6 +409,20 @@ pub fn gen_fn(t: &mut Tape, name: &str, vis: String, cfg: &FnGenCfg) -> (FnSrc, 
         where_: g.where_src(),
         body: if cfg.soup_bodies { gen_body(t) } else { "{}".to_string() },
     };
+    let mut f = f;
+    if cfg.soup_bodies && cfg.rich_syntax {
+        // signature tokens that a parse-and-print cycle does not preserve: empty generics, an empty where clause, and a
+        // tuple index pair (`t.1.0` is lexed as one float literal) inside a const expression of the return type
+        if f.generics.is_empty() && t.chance(1, 12) {
+            f.generics = "<>".to_string();
+        }
+        if f.where_.is_empty() && t.chance(1, 12) {
+            f.where_ = " where".to_string();
+        }
+        if t.chance(1, 16) {
+            f.ret = " -> [u8; { let t = (1usize, (2usize, 3usize)); t.1.0 + t.1.1 }]".to_string();
+        }
+    }
     (f, form)
 }
 
@@ -608,6 +622,8 @@ pub struct TraitSrc {
     pub supertraits: String,
     pub where_: String,
     pub items: Vec<TraitItemSrc>,
+    /// inner attributes / inner doc comments at the top of the trait's body
+    pub inner_attrs: Vec<String>,
 }
 
 impl TraitSrc {
@@ -632,6 +648,10 @@ impl TraitSrc {
         s.push_str(&self.supertraits);
         s.push_str(&self.where_);
         s.push_str(" {\n");
+        for a in &self.inner_attrs {
+            s.push_str(a);
+            s.push('\n');
+        }
         for it in &self.items {
             match it {
                 TraitItemSrc::Method(m) => s.push_str(&m.render()),
@@ -767,6 +787,15 @@ pub fn gen_trait(t: &mut Tape, name: &str, cfg: &TraitGenCfg) -> TraitSrc {
             }
         }
     }
+    let inner_attrs = if cfg.trait_attrs && t.chance(1, 8) {
+        match t.choose(3) {
+            0 => vec!["//! inner doc".to_string()],
+            1 => vec!["#![allow(missing_docs)]".to_string()],
+            _ => vec!["#![doc = \"inner\"]".to_string(), "/*! block inner doc */".to_string(), "#![allow(dead_code)]".to_string()],
+        }
+    } else {
+        vec![]
+    };
     TraitSrc {
         attrs: if cfg.trait_attrs { gen_attrs(t, 3) } else { vec![] },
         vis: gen_vis(t),
@@ -776,6 +805,7 @@ pub fn gen_trait(t: &mut Tape, name: &str, cfg: &TraitGenCfg) -> TraitSrc {
         supertraits,
         where_,
         items,
+        inner_attrs,
     }
 }
 
